@@ -8,11 +8,11 @@
 
    _partial theorems: c13_parse_back_partial and c13_independent_partial are proved at the wire level
    over explicit JSON-level round-trip specifications of the model's parser on printed object texts
-   (WireProofs.spec_members, spec_string, spec_error_codec, spec_lit_tight, spec_obj_tight,
-   spec_raw_value: "parse o print" facts about coq/json/Json.v, instances closed by vm_compute in
+   (WireProofs.spec_members, spec_string, spec_error_codec, spec_obj_tight,
+   spec_raw_value; spec_lit_tight is proved: "parse o print" facts about coq/json/Json.v, instances closed by vm_compute in
    wire/WireExamples.v and exercised on every run by the differential harness, which feeds every
    captured encoding back to the real ParseRequests and to the model).  Full statement: the same
-   conclusions without those six hypotheses, and for batches (enc_msgs true ms) as well; missing:
+   conclusions without those five hypotheses, and for batches (enc_msgs true ms) as well; missing:
    the parse-of-print / prefix-extension / unquote-of-escape lemmas for Json.pval. *)
 From Coq Require Import List NArith ZArith Bool.
 From JV Require Import Bytes Json JsonProofs Msg Wire WireProofs.
@@ -45,7 +45,7 @@ Proof. exact (fun s => conj (escape_string_no_ctl s) (escape_string_valid s)). Q
 Print Assumptions c13_escape_any_string.
 
 Theorem c13_parse_back_partial :
-  spec_members -> spec_string -> spec_error_codec -> spec_lit_tight -> spec_obj_tight -> spec_raw_value ->
+  spec_members -> spec_string -> spec_error_codec -> spec_obj_tight -> spec_raw_value ->
   forall (m : jmsg) (b : bytes), msg_rt m -> enc_msg m = Some b ->
     parse_member b = canon m /\ parse_msgs b = InMsgs false [canon m] /\
     parse_requests b = Parsed [to_parsed (canon m)].
@@ -53,7 +53,7 @@ Proof. exact parse_back_partial. Qed.
 Print Assumptions c13_parse_back_partial.
 
 Theorem c13_independent_partial :
-  spec_members -> spec_string -> spec_error_codec -> spec_lit_tight ->
+  spec_members -> spec_string -> spec_error_codec ->
   forall (m : jmsg) (b : bytes), msg_rt m -> enc_msg m = Some b ->
     exists eb, raw_members b = Some (msg_fields m eb) /\ lookup k_jsonrpc (msg_fields m eb) = Some v20 /\
                unmarshal_string v20 = Some (Some version).
